@@ -18,6 +18,7 @@ broadcast use {
     vstd::std_specs::btree::group_btree_axioms,
     vstd::std_specs::iter::group_iter_axioms,
     ax::axiom_ackid_key_model, ax::axiom_key_cmp, ax::axiom_ackid_cmp,
+    ax2::axiom_yielded_vec, ax2::axiom_yielded_iter,
 };
 
 //@include prelude/instant.rs
@@ -316,7 +317,7 @@ impl OutstandingMessageTracker {
 //@ requires old(self).wf()
 //@ ensures[C02,C04] final(self).wf()
 //@ # exactly the leases with deadline <= time leave the tracker
-//@ ensures[C04] forall|id: AckId| final(self)@.dom().contains(id) <==> (old(self)@.dom().contains(id) && time.v() < old(self)@[id].dl().t())
+//@ ensures[C04] forall|id: AckId| #![trigger final(self)@.dom().contains(id)] #![trigger old(self)@.dom().contains(id)] final(self)@.dom().contains(id) <==> (old(self)@.dom().contains(id) && time.v() < old(self)@[id].dl().t())
 //@ ensures[C02,C04] forall|id: AckId| final(self)@.dom().contains(id) ==> final(self)@[id] == old(self)@[id]
 //@ ensures[C02,C04] taken_ok(result@, old(self)@, time.v())
 //@ ensures[C01,C04] result.len() + final(self)@.dom().len() == old(self)@.dom().len()
@@ -338,7 +339,7 @@ impl OutstandingMessageTracker {
 //@ requires IteratorSpec::obeys_prophetic_iter_laws(&ack_ids), IteratorSpec::decrease(&ack_ids).is_some()
 //@ ensures[C02] final(self).wf()
 //@ # exactly the named live leases leave; unknown / stale / repeated ids are no-ops
-//@ ensures[C02] forall|id: AckId| final(self)@.dom().contains(id) <==> (old(self)@.dom().contains(id) && !IteratorSpec::remaining(&ack_ids).contains(id))
+//@ ensures[C02] forall|id: AckId| #![trigger final(self)@.dom().contains(id)] #![trigger old(self)@.dom().contains(id)] final(self)@.dom().contains(id) <==> (old(self)@.dom().contains(id) && !IteratorSpec::remaining(&ack_ids).contains(id))
 //@ # frame: every lease that stays is unchanged
 //@ ensures[C02] forall|id: AckId| final(self)@.dom().contains(id) ==> final(self)@[id] == old(self)@[id]
 //@ ensures[C02] listed_ok(result@, old(self)@)
@@ -380,6 +381,303 @@ impl OutstandingMessageTracker {
 //@ ret r
 //@ requires self.wf()
 //@ ensures r == self@.dom().len()
+//@end
+}
+
+// ======================================================================================
+// src/collections/messages.rs
+//@item src/collections/messages.rs struct Messages
+
+/// the sequence of items an `IntoIterator` argument yields (TRUSTED link to the call-site shapes, A-STD)
+pub use ax2::{yielded, consumed};
+pub mod ax2 {
+    use super::*;
+    pub uninterp spec fn yielded<I: IntoIterator>(i: I) -> Seq<I::Item>;
+    /// `i` was handed to a function that drains it completely (only ever established by Messages::append's contract)
+    pub uninterp spec fn consumed<I: IntoIterator>(i: I) -> bool;
+    // TRUSTED (A-STD): a Vec yields its elements in order
+    pub broadcast axiom fn axiom_yielded_vec<T>(v: Vec<T>)
+        ensures #[trigger] yielded::<Vec<T>>(v) == v@;
+    // TRUSTED (A-STD): a drained iterator that obeys vstd's prophetic iterator laws has yielded exactly its
+    // `remaining()` sequence and has returned None (same shape as vstd's contract of Iterator::collect)
+    pub broadcast axiom fn axiom_yielded_iter<I: Iterator>(i: I)
+        requires IteratorSpec::obeys_prophetic_iter_laws(&i), consumed::<I>(i)
+        ensures IteratorSpec::will_return_none(&i), #[trigger] yielded::<I>(i) == IteratorSpec::remaining(&i);
+}
+
+impl Messages {
+    pub closed spec fn view(&self) -> Seq<Arc<TopicMessage>> { self.list@ }
+
+//@fn src/collections/messages.rs Messages::new tags=C01
+//@ ret r
+//@ ensures r@ == Seq::<Arc<TopicMessage>>::empty()
+//@end
+
+    // TRUSTED (A-STD): `Messages::append<I>` (size_hint + reserve + VecDeque::extend) is outside Verus' reach:
+    // `Iterator::size_hint` cannot be given a specification (the trait is already externally specified by vstd).
+    // Assumed contract = std's documented behaviour of `VecDeque::extend`; cross-checked by the bounded Kani
+    // harness `messages_append_bounded` on the real function.
+//@fn src/collections/messages.rs Messages::append tags=C01,C08
+//@ attr #[verifier::external_body]
+//@ ensures[C01,C08] final(self)@ == old(self)@ + yielded(messages_iter), consumed(messages_iter)
+//@end
+
+//@fn src/collections/messages.rs Messages::len tags=C15
+//@ ret r
+//@ ensures r == self@.len()
+//@end
+
+//@fn src/collections/messages.rs Messages::is_empty tags=C15
+//@ ret r
+//@ ensures r == (self@.len() == 0)
+//@end
+
+//@fn src/collections/messages.rs Messages::pop_front tags=C03,C08
+//@ ret r
+//@ ensures[C08] old(self)@.len() == 0 ==> r.is_none() && final(self)@ == old(self)@
+//@ ensures[C03,C08] old(self)@.len() > 0 ==> r == Some(old(self)@[0]) && final(self)@ == old(self)@.subrange(1, old(self)@.len() as int)
+//@end
+
+//@fn src/collections/messages.rs Messages::clear tags=C11
+//@ ensures final(self)@ == Seq::<Arc<TopicMessage>>::empty()
+//@end
+}
+
+// ======================================================================================
+// src/subscriptions/subscription_actor.rs  (+ the types it needs)
+//@include prelude/actor_stubs.rs
+//@item src/subscriptions/subscription.rs struct SubscriptionInfo drop-derive=Debug,Clone
+// TRUSTED (A-DERIVE): derived Clone is field-wise
+impl Clone for SubscriptionInfo {
+    #[verifier::external_body]
+    fn clone(&self) -> (r: Self) ensures r == *self { unimplemented!() }
+}
+//@item src/subscriptions/stats.rs struct SubscriptionStats drop-derive=Debug,Clone
+impl SubscriptionStats {
+//@fn src/subscriptions/stats.rs SubscriptionStats::new
+//@ ret r
+//@ ensures r.outstanding_messages_count == outstanding_messages_count, r.backlog_messages_count == backlog_messages_count
+//@end
+}
+//@item src/subscriptions/errors.rs enum GetInfoError drop-derive=thiserror::Error strip-attr=error
+//@item src/subscriptions/errors.rs enum PullMessagesError drop-derive=thiserror::Error strip-attr=error
+//@item src/subscriptions/errors.rs enum AcknowledgeMessagesError drop-derive=thiserror::Error strip-attr=error
+//@item src/subscriptions/errors.rs enum ModifyDeadlineError drop-derive=thiserror::Error strip-attr=error
+//@item src/subscriptions/errors.rs enum DeleteError drop-derive=thiserror::Error strip-attr=error
+//@item src/subscriptions/errors.rs enum GetStatsError drop-derive=thiserror::Error strip-attr=error
+//@item src/subscriptions/subscription_actor.rs const MAX_PULL_COUNT
+//@item src/subscriptions/subscription_actor.rs enum SubscriptionRequest
+//@item src/subscriptions/subscription_actor.rs struct SubscriptionActor
+
+/// abstract state of one subscription (DESIGN §6)
+pub struct SubView {
+    pub backlog: Seq<Arc<TopicMessage>>,
+    pub out: Leases,
+    pub next: int,
+    pub deleted: bool,
+}
+
+/// number of messages one pull hands out (mirrors the capacity rule of pull_messages, incl. the u16 truncation)
+/// `usize as u16` truncates (machine arithmetic, proved in Verus' bit-vector mode)
+pub proof fn lemma_trunc_u16(l: usize)
+    ensures l as u16 == (l % 0x1_0000) as u16
+{
+    assert(l as u16 == (l % 0x1_0000) as u16) by (bit_vector);
+}
+pub open spec fn pull_cap(backlog_len: int, max_count: u16) -> int {
+    let outgoing = (backlog_len % 0x1_0000) as int;
+    let hi = if outgoing > 1000 { outgoing } else { 1000 };
+    if (max_count as int) > hi { hi } else { max_count as int }
+}
+pub open spec fn pull_count(backlog_len: int, max_count: u16) -> int {
+    let cap = pull_cap(backlog_len, max_count);
+    if backlog_len == 0 { 0 } else if cap == 0 { 1 } else if backlog_len < cap { backlog_len } else { cap }
+}
+/// deadline given at hand-out instant `now` with subscription ack deadline `d` (what AckDeadline::new guarantees)
+pub open spec fn lease_deadline_ok(dl: AckDeadline, now: int, d: nat) -> bool {
+    now + d - 1000 < dl.t() < now + d + grid_ns()
+}
+/// the result of one pull from state `s` at instant `now`: the first n backlog messages in order, fresh
+/// consecutive ack ids, every deadline = now + d within the rounding slack
+pub open spec fn pulled_ok(v: Seq<PulledMessage>, s: SubView, n: int, now: int, d: nat) -> bool {
+    &&& v.len() == n
+    &&& n <= s.backlog.len()
+    &&& forall|i: int| 0 <= i < n ==> (#[trigger] v[i]).msg() == s.backlog[i] && v[i].id().v() == s.next + i
+            && lease_deadline_ok(v[i].dl(), now, d) && v[i].attempt() == 1
+}
+pub open spec fn out_after_pull(s: SubView, v: Seq<PulledMessage>) -> Leases
+    decreases v.len()
+{
+    if v.len() == 0 { s.out } else { out_after_pull(s, v.drop_last()).insert(v.last().id(), v.last()) }
+}
+
+/// effect of a ModifyAckDeadline turn on the subscription view
+pub open spec fn modify_view(s: SubView, mods: Seq<DeadlineModification>) -> SubView {
+    let st = apply_mods(ModState { out: s.out, nacked: Seq::empty() }, mods);
+    SubView { out: st.out, backlog: s.backlog + st.nacked.map_values(|p: PulledMessage| p.msg()), ..s }
+}
+pub open spec fn pull_view(s: SubView, v: Seq<PulledMessage>) -> SubView {
+    SubView { backlog: s.backlog.skip(v.len() as int), out: out_after_pull(s, v), next: s.next + v.len(), deleted: false }
+}
+/// state effect of one mailbox turn of the subscription actor
+pub open spec fn turn_ok(s: SubView, request: SubscriptionRequest, t: SubView, d: nat) -> bool {
+    match request {
+        SubscriptionRequest::PostMessages { messages } =>
+            if s.deleted { t == s } else { t == (SubView { backlog: s.backlog + messages@, ..s }) },
+        SubscriptionRequest::GetInfo { responder } => t == s,
+        SubscriptionRequest::PullMessages { max_count, responder } =>
+            if s.deleted { t == s } else {
+                exists|v: Seq<PulledMessage>, now: Instant|
+                    pulled_ok(v, s, pull_count(s.backlog.len() as int, max_count), now.v(), d) && t == pull_view(s, v)
+            },
+        SubscriptionRequest::AcknowledgeMessages { ack_ids, responder } =>
+            if s.deleted { t == s } else { t == (SubView { out: s.out.remove_keys(ack_ids@.to_set()), ..s }) },
+        SubscriptionRequest::ModifyDeadline { deadline_modifications, responder } =>
+            if s.deleted { t == s } else { t == modify_view(s, deadline_modifications@) },
+        SubscriptionRequest::Delete { responder } => t.deleted,
+        SubscriptionRequest::GetStats { responder } => t == s,
+    }
+}
+pub open spec fn leases_inv(out: Leases, next: int) -> bool {
+    forall|id: AckId| out.dom().contains(id) ==> id.v() < next && out[id].id() == id
+}
+pub proof fn lemma_apply_mods_inv(st: ModState, mods: Seq<DeadlineModification>, next: int)
+    requires leases_inv(st.out, next)
+    ensures leases_inv(apply_mods(st, mods).out, next)
+    decreases mods.len()
+{
+    if mods.len() > 0 {
+        lemma_apply_mods_inv(st, mods.drop_last(), next);
+        let st1 = apply_mods(st, mods.drop_last());
+        let m = mods.last();
+        let st2 = apply_mod(st1, m);
+        assert(apply_mods(st, mods) == st2);
+        assert forall|id: AckId| st2.out.dom().contains(id) implies id.v() < next && st2.out[id].id() == id by {
+            assert(st1.out.dom().contains(id));
+            assert(st1.out[id].id() == id);
+            if id == m.ack_id && m.new_deadline.is_some() {
+                assert(st1.out[id].with_deadline(m.new_deadline.unwrap()).id() == st1.out[id].id());
+            }
+        }
+    } else {
+        assert(apply_mods(st, mods) == st);
+    }
+}
+
+impl SubscriptionActor {
+    pub closed spec fn view(&self) -> SubView {
+        SubView { backlog: self.backlog@, out: self.outstanding@, next: self.next_ack_id.v(), deleted: self.deleted }
+    }
+    pub closed spec fn ack_deadline(&self) -> nat { dur_ns(self.info.ack_deadline) }
+    /// actor invariant: tracker well-formed; every lease is filed under its own id; ack ids in use are below `next`
+    pub closed spec fn inv(&self) -> bool {
+        &&& self.outstanding.wf()
+        &&& forall|id: AckId| self.outstanding@.dom().contains(id) ==> id.v() < self.next_ack_id.v() && self.outstanding@[id].id() == id
+        &&& self.ack_deadline() <= 0x2000_0000_0000_0000
+    }
+
+//@fn src/subscriptions/subscription_actor.rs SubscriptionActor::receive tags=C01,C02,C03,C05,C11
+//@ requires old(self).inv()
+//@ requires old(self)@.next + old(self)@.backlog.len() < u64::MAX
+//@ ensures final(self).inv()
+//@ # every request variant is dispatched to exactly its handler (state effect of one actor turn)
+//@ ensures[C01,C02,C03,C05,C11] turn_ok(old(self)@, request, final(self)@, old(self).ack_deadline())
+//@end
+
+//@fn src/subscriptions/subscription_actor.rs SubscriptionActor::get_info tags=C10
+//@ ret r
+//@ requires old(self).inv()
+//@ ensures final(self).inv()
+//@ ensures[C10] r.is_ok() && r.unwrap() == old(self).info
+//@ ensures[C10] final(self)@ == old(self)@
+//@end
+
+//@fn src/subscriptions/subscription_actor.rs SubscriptionActor::pull_messages tags=C03,C04,C08,C15
+//@ ret r
+//@ requires old(self).inv()
+//@ # A-ARITH: fewer than 2^64 deliveries per subscription
+//@ requires old(self)@.next + old(self)@.backlog.len() < u64::MAX
+//@ ensures[C03] final(self).inv()
+//@ ensures r.is_ok()
+//@ ensures[C11] old(self)@.deleted ==> r.unwrap()@.len() == 0 && final(self)@ == old(self)@
+//@ # C15: batch size; C08: prefix of the backlog in order; C03: fresh ack ids; C04: deadline = hand-out + D
+//@ ensures[C03,C04,C08,C15] !old(self)@.deleted ==> exists|now: Instant| pulled_ok(r.unwrap()@, old(self)@, pull_count(old(self)@.backlog.len() as int, max_count), now.v(), old(self).ack_deadline())
+//@ # C03: hand-out moves backlog -> outstanding in the same turn; nothing else changes
+//@ ensures[C01,C03] !old(self)@.deleted ==> final(self)@ == pull_view(old(self)@, r.unwrap()@)
+//@ loop 1 invariant self.inv(), !self.deleted, self.ack_deadline() == old(self).ack_deadline()
+//@ loop 1 invariant deadline.v() == now.v() + old(self).ack_deadline()
+//@ loop 1 invariant capacity == pull_cap(old(self)@.backlog.len() as int, max_count)
+//@ loop 1 invariant pulled_ok(result@, old(self)@, result@.len() as int, now.v(), old(self).ack_deadline())
+//@ loop 1 invariant self@.backlog =~= old(self)@.backlog.skip(result@.len() as int)
+//@ loop 1 invariant self@.out =~= out_after_pull(old(self)@, result@)
+//@ loop 1 invariant self@.next == old(self)@.next + result@.len()
+//@ loop 1 invariant epoch().v() <= now.v() <= now_max()
+//@ loop 1 invariant old(self)@.next + old(self)@.backlog.len() < u64::MAX
+//@ loop 1 invariant_except_break result@.len() == 0 || result@.len() < capacity
+//@ loop 1 ensures result@.len() == pull_count(old(self)@.backlog.len() as int, max_count)
+//@ loop 1 decreases self.backlog@.len()
+//@ proof-after /let outgoing_len = / { lemma_trunc_u16(self.backlog@.len() as usize); }
+//@ proof-before /let ack_id = self\.next_ack_id;/ { assert(old(self)@.backlog.skip(result@.len() as int).len() == old(self)@.backlog.len() - result@.len()); }
+//@ ghost-before /result\.push\(/ let ghost prev = result@;
+//@ proof-after /self\.outstanding\.add\(/ { assert(result@.drop_last() =~= prev); }
+//@end
+
+//@fn src/subscriptions/subscription_actor.rs SubscriptionActor::acknowledge_messages tags=C02
+//@ ret r
+//@ requires old(self).inv()
+//@ ensures[C02] final(self).inv()
+//@ ensures r.is_ok()
+//@ ensures[C11] old(self)@.deleted ==> final(self)@ == old(self)@
+//@ # C02: exactly the named live leases leave `out`; backlog, counter and every other lease are untouched
+//@ ensures[C02] !old(self)@.deleted ==> final(self)@ == (SubView { out: old(self)@.out.remove_keys(ack_ids@.to_set()), ..old(self)@ })
+//@ proof-before /^\s*Ok\(\(\)\)\s*$/ { assert(self@.out =~= old(self)@.out.remove_keys(ack_ids@.to_set())); }
+//@end
+
+//@fn src/subscriptions/subscription_actor.rs SubscriptionActor::modify_deadline tags=C05
+//@ ret r
+//@ requires old(self).inv()
+//@ ensures[C05] final(self).inv()
+//@ ensures r.is_ok()
+//@ ensures[C11] old(self)@.deleted ==> final(self)@ == old(self)@
+//@ # C05: deadlines replaced / nacked leases go back to the end of the backlog in the same turn
+//@ ensures[C05] !old(self)@.deleted ==> final(self)@ == modify_view(old(self)@, deadline_modifications@)
+//@ closure 1 ret msg: Arc<TopicMessage>
+//@ closure 1 ensures msg == m.msg()
+//@ proof-after /let nacks = self\.outstanding\.modify/ { lemma_apply_mods_inv(ModState { out: old(self)@.out, nacked: Seq::empty() }, deadline_modifications@, old(self)@.next); }
+//@ proof-before /^\s*Ok\(\(\)\)\s*$/ { assert(self@.backlog =~= modify_view(old(self)@, deadline_modifications@).backlog); }
+//@end
+
+//@fn src/subscriptions/subscription_actor.rs SubscriptionActor::handle_expired_messages tags=C01,C04
+//@ requires old(self).inv()
+//@ ensures final(self).inv()
+//@ # C04/C01: every expired lease's message goes back to the end of the backlog, nothing else changes
+//@ ensures[C01,C04] final(self)@ == (SubView { backlog: old(self)@.backlog + expired@.map_values(|p: PulledMessage| p.msg()), ..old(self)@ })
+//@ closure 1 ret msg: Arc<TopicMessage>
+//@ closure 1 ensures msg == p.msg()
+//@ proof-before /if !self\.backlog\.is_empty\(\)/ { assert(self@.backlog =~= old(self)@.backlog + expired@.map_values(|p: PulledMessage| p.msg())); }
+//@end
+
+//@fn src/subscriptions/subscription_actor.rs SubscriptionActor::get_stats tags=C15
+//@ ret r
+//@ requires old(self).inv()
+//@ ensures final(self)@ == old(self)@, final(self).inv()
+//@ ensures r.is_ok() && r.unwrap().outstanding_messages_count == old(self)@.out.dom().len() && r.unwrap().backlog_messages_count == old(self)@.backlog.len()
+//@end
+
+//@fn src/subscriptions/subscription_actor.rs SubscriptionActor::delete tags=C11
+//@ ret r
+//@ requires old(self).inv()
+//@ ensures final(self).inv()
+//@ ensures[C11] old(self)@.deleted ==> r.is_ok() && final(self)@ == old(self)@
+//@ ensures[C11] final(self)@.deleted
+//@ ensures[C11] r.is_ok() && !old(self)@.deleted ==> final(self)@ == (SubView { backlog: Seq::empty(), out: Leases::empty(), next: old(self)@.next, deleted: true })
+//@end
+
+//@fn src/subscriptions/subscription_actor.rs SubscriptionActor::post_messages tags=C01,C08,C11
+//@ requires old(self).inv()
+//@ ensures final(self).inv()
+//@ ensures[C11] old(self)@.deleted ==> final(self)@ == old(self)@
+//@ ensures[C01,C08] !old(self)@.deleted ==> final(self)@ == (SubView { backlog: old(self)@.backlog + new_messages@, ..old(self)@ })
 //@end
 }
 
